@@ -42,6 +42,10 @@ KF_UNASSIGNED = "C17-pdo-unassigned-counted"
 FMT = {8: "B", 16: "H", 32: "I", 64: "Q"}
 
 
+class Enough(Exception):
+    pass
+
+
 # ------------------------------------------------------------------ part A
 def identity(n, seed):
     alpha = [0, 1, 0xFFFFFFFF, (0x9E3779B1 * (seed + 1) + 0x1234567) &
@@ -57,6 +61,12 @@ def read_image(shape, n, seed):
     ident = identity(n, seed)
     cats = [(t, category_bytes(i, w)) for i, (t, w) in enumerate(shape)]
     return ident, cats, coe.sii_image(*ident, categories=cats, pad=0)
+
+
+def frame_budget(image):
+    """a reader needs 2 + ceil(category bytes / 8) reads of at most
+    3 + 3 * K + 2 frames each; allow 16 per read plus slack"""
+    return 16 * (2 + (len(image) - 0x80 + 7) // 8 + 4)
 
 
 def execute_read(ch, shape, n, eight, seed):
@@ -80,7 +90,7 @@ def execute_read(ch, shape, n, eight, seed):
         term = Terminal(m.ec)
         term.position = 5
         fut = asyncio.ensure_future(term.read_eeprom())
-        done = m.run(fut, max_frames=5000)
+        done = m.run(fut, max_frames=frame_budget(image))
         if not done:
             outcome = ("pending",)
         elif fut.exception() is not None:
@@ -130,8 +140,18 @@ def work_read(item, res):
                                seed=seed, choices=list(ch.choices)),
                           v[1], v[2], sig=core.digest(["A", v[0], eight]),
                           note=v[0])
-    explore.dfs(lambda ch: execute_read(ch, shape, n, eight, seed), bound,
-                on_exec)
+            bad.append(1)
+            if len(bad) >= 3:
+                raise Enough()
+    bad = []
+    try:
+        cnt, capped = explore.dfs(
+            lambda ch: execute_read(ch, shape, n, eight, seed), bound,
+            on_exec, max_execs=4000)
+    except Enough:
+        return      # three counterexamples for this shape are plenty
+    if capped:
+        res.caps_hit.append(f"A {shape} eight={eight}: {cnt} executions")
 
 
 # ------------------------------------------------------------------ part B
@@ -381,7 +401,7 @@ def execute_chain(ch, conf, eight, seed):
             await term.apply_eeprom()
             return await term.parse_pdos()
         fut = asyncio.ensure_future(chain())
-        done = m.run(fut, max_frames=20000)
+        done = m.run(fut, max_frames=frame_budget(image) + 2000)
         raised = ret = None
         if not done:
             raised = ("pending", "")
@@ -458,8 +478,18 @@ def work_chain(item, res):
                                choices=list(ch.choices)), v[1], v[2],
                           kf=v[3], sig=core.digest(["C", v[0], v[3]]),
                           note=v[0])
-    explore.dfs(lambda ch: execute_chain(ch, conf, eight, seed), bound,
-                on_exec, max_execs=400)
+            bad.append(1)
+            if len(bad) >= 3:
+                raise Enough()
+    bad = []
+    try:
+        cnt, capped = explore.dfs(
+            lambda ch: execute_chain(ch, conf, eight, seed), bound, on_exec,
+            max_execs=4000)
+    except Enough:
+        return
+    if capped:
+        res.caps_hit.append(f"C {conf}: {cnt} executions")
 
 
 # ------------------------------------------------------------------ driving
@@ -535,6 +565,9 @@ def run(ctx):
     except AssertionError as e:
         raise core.Internal(f"mc/coe.py self-test failed: {e!r}")
     its = items(ctx)
+    # neighbours in enumeration order cost alike: spread them over the chunks
+    its = [its[i] for i in sorted(range(len(its)),
+                                  key=lambda i: (i % 61, i))]
     probe = ((41, 3), (10, 9))
     a = execute_read(explore.Chooser((1, 2, 0, 1)), probe, 5, False, ctx.seed)
     b = execute_read(explore.Chooser((1, 2, 0, 1)), probe, 5, False, ctx.seed)
@@ -553,6 +586,8 @@ def run(ctx):
     res.sample(dict(part="B-pdo", shape=[["b1", "pad", "u16"], ["u8"]],
                     unassigned=True))
     res.assumptions += [
+        "read_eeprom has to finish within 16 frames per 8 bytes of image "
+        "(a reader needs at most 11 with busy <= 2 polls)",
         "busy at the first polling loop only occurs before the first "
         "command (the interface is idle after a completed read)",
         "several sync managers of one kind: the attributes may describe any "
